@@ -10,9 +10,11 @@ cp $WT/demo/patch.diff $D/patch.diff || exit 2
 for f in demo.cpp README.md meta.txt; do [ -f $WT/demo/$f ] && cp $WT/demo/$f $D/$f; done
 cd $WT
 FL=""; grep -q "omp" demo/demo.cpp && FL="-fopenmp"
+[ -d demo/mock ] && { FL="$FL -I$WT/demo/mock"; cp -r demo/mock $D/; }
+LIBS=""; grep -qi "unif\|fftw" demo/demo.cpp && LIBS="-lfftw3 -lfftw3f"
 # 1. demo with the change
 git -C $WT checkout -q -- src; git -C $WT apply $D/patch.diff || { echo "patch does not apply"; exit 2; }
-g++ -std=c++17 -O1 -I$WT/src $FL demo/demo.cpp -o /tmp/seed_demo_with 2> /tmp/seed_demo.log || { echo "demo does not compile with the change"; tail -3 /tmp/seed_demo.log; }
+g++ -std=c++17 -O1 -I$WT/src $FL demo/demo.cpp -o /tmp/seed_demo_with $LIBS 2> /tmp/seed_demo.log || { echo "demo does not compile with the change"; tail -3 /tmp/seed_demo.log; }
 ( cd demo && timeout 600 /tmp/seed_demo_with > /tmp/seed_with.out 2>&1 ); RC_WITH=$?
 # 2. suite with the change (the worktree's own build directory)
 SUITE="not run"
@@ -22,7 +24,7 @@ if [ -d $WT/_build ]; then
 fi
 # 3. demo without the change
 git -C $WT checkout -q -- src
-g++ -std=c++17 -O1 -I$WT/src $FL demo/demo.cpp -o /tmp/seed_demo_without 2>> /tmp/seed_demo.log
+g++ -std=c++17 -O1 -I$WT/src $FL demo/demo.cpp -o /tmp/seed_demo_without $LIBS 2>> /tmp/seed_demo.log
 ( cd demo && timeout 600 /tmp/seed_demo_without > /tmp/seed_without.out 2>&1 ); RC_WITHOUT=$?
 git -C $WT apply $D/patch.diff
 echo "demo with change: exit $RC_WITH ; without: exit $RC_WITHOUT ; suite with change: $SUITE"
